@@ -4,6 +4,7 @@ package chpool
 
 import (
 	"context"
+	"sync"
 	"time"
 
 	"github.com/ClickHouse/ch-go"
@@ -133,4 +134,38 @@ func VerifC11Expiry() {
 		p.Close()
 		verifAssert(srv.OpenConns() == 0, "closed-after-pool-close")
 	}
+}
+
+// VerifC12Pool: a pool shared by two users while the idle health check runs, under the
+// happens-before analysis: the pool's own bookkeeping (puddle, the handle slots, the client
+// behind a handle) is never touched by two goroutines without an ordering between them.
+func VerifC12Pool() {
+	srv := ch.VerifNewServer()
+	maxConns := int32(verifIntRange("maxconns", 1, 2))
+	verifSchedPolicy([3]string{"first", "last", "rr"}[verifChoice("policy", 3)], 0)
+	p := vPool(srv, maxConns, time.Hour, time.Hour)
+	ctx := context.Background()
+	var wg sync.WaitGroup
+	user := func() {
+		defer wg.Done()
+		c, err := p.Acquire(ctx)
+		if err != nil {
+			return
+		}
+		_ = c.Ping(ctx)
+		c.Release()
+		c.Release() // inert
+	}
+	wg.Add(3)
+	go user()
+	go user()
+	go func() {
+		defer wg.Done()
+		p.checkIdleConnsHealth()
+	}()
+	wg.Wait()
+	verifAssert(p.Stat().AcquiredResources() == 0, "all-released")
+	p.Close()
+	verifAssert(srv.OpenConns() == 0, "pool-closed")
+	verifObserveU64("dials", uint64(srv.Dials()))
 }
